@@ -1,3 +1,53 @@
-From PV Require Import Expect.Model.
-Theorem placeholder : True. Proof. exact I. Qed.
-Print Assumptions placeholder.
+(** C04 EOF/TIMEOUT outcomes.  Property theorems only. *)
+From Coq Require Import ZArith NArith List Bool Arith.
+Import ListNotations.
+From PV Require Import Base.PySeq Base.Rx Base.RxFacts Expect.Model Expect.Spec Expect.Refine Expect.SpecFacts.
+
+(** When the stream ends / the time runs out / the transport fails before any window contained an occurrence:
+    the result is "index of the marker if listed (Some i), else that exception (None)" - never another
+    constructor -, before is all pending text, at EOF the pending text and the search buffer are cleared, after
+    TIMEOUT or an error everything stays pending. *)
+Theorem C04_eof_timeout_outcomes :
+  forall (rx : Type) (re_search : rx -> text -> nat -> option (nat * nat)),
+  (forall r t p a b, re_search r t p = Some (a, b) -> a <= b) ->
+  forall (c : cfg rx) (t0 : bool) (s : st) (evs : list ev), wfW rx c -> Inv s ->
+  match expect_loop rx re_search c t0 s evs with (r, s', evs') =>
+    exists used, evs = used ++ evs' /\
+    let P := pend s ++ data_of used in
+    match r with
+    | AtEof i b => i = eof_index c /\ b = P /\ pend s' = [] /\ buf s' = []
+    | AtTimeout i b => i = timeout_index c /\ b = P /\ pend s' = P
+    | Errored b => b = P /\ pend s' = P
+    | Matched _ _ _ _ => True
+    end
+  end.
+Proof. exact eof_timeout_outcomes. Qed.
+Print Assumptions C04_eof_timeout_outcomes.
+
+(** An occurrence already present in the searchable pending text wins over whatever the transport does
+    next - EOF, TIMEOUT, an error, also with timeout 0: no event is consumed. *)
+Theorem C04_pending_match_wins :
+  forall (rx : Type) (re_search : rx -> text -> nat -> option (nat * nat))
+         (c : cfg rx) (t0 : bool) (s : st) (evs : list ev) h, wfW rx c -> Inv s ->
+  nsearch rx re_search c (lastW (W c) (pend s)) = Some h ->
+  exists i b a sp s', expect_loop rx re_search c t0 s evs = (Matched i b a sp, s', evs) /\
+                      strip (Matched i b a sp) = strip (fst (hit (pend s) (lastW (W c) (pend s)) h)).
+Proof. exact pending_match_wins. Qed.
+Print Assumptions C04_pending_match_wins.
+
+(** After EOF every later call on an ended stream reports EOF again with empty before (it never blocks:
+    the model's transport keeps answering EOF once the event list is exhausted). *)
+Theorem C04_eof_is_sticky :
+  forall (rx : Type) (re_search : rx -> text -> nat -> option (nat * nat)) (c : cfg rx) (t0 : bool),
+  nsearch rx re_search c [] = None ->
+  expect_loop rx re_search c t0 {| pend := []; buf := [] |} [] =
+  (AtEof (eof_index c) [], {| pend := []; buf := [] |}, []).
+Proof. exact eof_sticky. Qed.
+Print Assumptions C04_eof_is_sticky.
+
+(** with timeout 0 the pending text is searched and one read is still attempted *)
+Example C04_timeout_zero_reads_once :
+  fst (fst (expect_loop rx rx_search {| ckind := KExact; pats := [PStr [98]%N; PTimeout]; W := None |} true
+              {| pend := [97]%N; buf := [97]%N |} [Data [98]%N; Data [99]%N]))
+  = Matched 0 [97]%N [98]%N (1, 2).
+Proof. vm_compute. reflexivity. Qed.
